@@ -491,7 +491,17 @@ def int_xor(a, b):
         return a ^ b
     if _XOR8 is None:
         _XOR8 = z3.Function("xor8", z3.IntSort(), z3.IntSort(), z3.IntSort())
-    r = _XOR8(T(a), T(b))
+    # xor is an uninterpreted commutative function with identity 0 (operands ordered canonically)
+    if isinstance(a, int) and a == 0:
+        return b
+    if isinstance(b, int) and b == 0:
+        return a
+    ta, tb = T(a), T(b)
+    if str(ta) > str(tb):
+        ta, tb = tb, ta
+    if ta.eq(tb):
+        return 0
+    r = _XOR8(ta, tb)
     CUR.fact(z3.And(r >= 0, r <= 255))
     return SymInt(r)
 
